@@ -55,30 +55,21 @@ def gen(repo):
         out.append(txt)
         dag[name] = {"expr": e, "args": names}
 
-    env0 = lambda: {"r": ("s", "r"), "beta": ("s", "beta"), "rcut": ("s", "rcut")}
-    fn = load_function(path, "polypadevalue")
-    se = SymExec({})
-    emit("pp_value", se.run(fn.body, env0())["__return__"])
-    fn = load_function(path, "polypadegradvalue")
-    se = SymExec({})
-    ret = se.run(fn.body, env0())["__return__"]
-    emit("pp_gv_gradr", ret[0])
-    emit("pp_gv_value", ret[1])
-    fn = load_function(path, "polypadegradlap")
-    se = SymExec({})
-    ret = se.run(fn.body, env0())["__return__"]
-    emit("pp_gl_gradr", ret[0])
-    emit("pp_gl_lap", ret[1])
-    # PolyPadeFunction methods: how the radial factors are turned into gradient vectors / which kernel each method calls
-    for meth, kern in (("value", "polypadevalue"), ("gradient_value", "polypadegradvalue"), ("gradient_laplacian", "polypadegradlap")):
+    # PolyPadeFunction: the methods the wave functions call are executed symbolically (the module-level kernels polypade* and any private helper
+    # are executed in place); rvec is replaced by the scalar 1, so that the 'gradient' is the radial factor G(r) with grad = rvec * G(r)
+    hp = param_handlers(["beta", "rcut"])
+    for meth in ("value", "gradient_value", "gradient_laplacian"):
         m = load_method(path, "PolyPadeFunction", meth)
-        calls = [ast.unparse(c) for c in ast.walk(m) if isinstance(c, ast.Call) and isinstance(c.func, ast.Name) and c.func.id.startswith("polypade")]
-        if len(calls) != 1 or not calls[0].startswith(kern + "(r, "):
-            raise TranslationError("PolyPadeFunction.%s does not call %s(r, beta, rcut): %s" % (meth, kern, calls))
-        if meth != "value":
-            srcs = [ast.unparse(s.value) for s in m.body if isinstance(s, ast.Assign) and isinstance(s.targets[0], ast.Name) and s.targets[0].id == "grad"]
-            if srcs != ["rvec * grad_rvec[..., np.newaxis]"]:
-                raise TranslationError("PolyPadeFunction.%s: gradient is not rvec * grad_rvec: %s" % (meth, srcs))
+        se = SymExec(hp, resolver=class_resolver(path, "PolyPadeFunction"))
+        env = {"r": ("s", "r"), "rvec": ("c", F(1)), "self": Opaque("self")}
+        ret = se.run(m.body, env).get("__return__")
+        if meth == "value":
+            emit("pp_value", ret)
+        else:
+            if not (isinstance(ret, tuple) and len(ret) == 2 and not isinstance(ret[0], str)):
+                raise TranslationError("PolyPadeFunction.%s does not return a pair" % meth)
+            emit("pp_gv_gradr" if meth == "gradient_value" else "pp_gl_gradr", ret[0])
+            emit("pp_gv_value" if meth == "gradient_value" else "pp_gl_lap", ret[1])
     # CutoffCuspFunction: rvec is replaced by the scalar 1, so that the 'gradient' is the radial factor G(r) with grad = rvec * G(r)
     h = param_handlers(["gamma", "rcut"])
     for meth in ("value", "gradient", "gradient_value", "gradient_laplacian"):
@@ -103,11 +94,37 @@ def gen(repo):
     sel2 = [ast.unparse(s.value) for s in m2.body if isinstance(s, ast.Assign) and isinstance(s.targets[0], ast.Name) and s.targets[0].id == "select"]
     if sel != ["r < self.rcut"] or sel2 != ["r < self.rcut"]:
         raise TranslationError("CutoffFunc3dEvaluator: the cutoff mask is not `r < self.rcut`: %s %s" % (sel, sel2))
-    # energy.kinetic: ke += -0.5 * lap.real
-    fn = load_function(os.path.join(repo, "pyqmc/observables/energy.py"), "kinetic")
-    ke = [ast.unparse(s) for s in ast.walk(fn) if isinstance(s, ast.AugAssign) and isinstance(s.target, ast.Name) and s.target.id == "ke"]
-    if ke != ["ke += -0.5 * lap.real"]:
-        raise TranslationError("energy.kinetic: kinetic energy is not accumulated as -0.5 * lap.real: %s" % ke)
+    # energy.kinetic: the statements before the electron loop, TWO iterations of its body (Laplacians lap1, lap2) and the statements after it are
+    # executed symbolically; the kinetic energy returned must be -(lap1 + lap2)/2 (theorem in C04): accumulation and factor, however it is spelled
+    kpath = os.path.join(repo, "pyqmc/observables/energy.py")
+    fn = load_function(kpath, "kinetic")
+    loops = [(k, st) for k, st in enumerate(fn.body) if isinstance(st, ast.For) and isinstance(st.target, ast.Name)]
+    if len(loops) != 1:
+        raise TranslationError("energy.kinetic: expected one loop over the electrons")
+    k, loop = loops[0]
+    count = [0]
+
+    def h_gl(se_, a, kw_, e_):
+        count[0] += 1
+        return (("v", "grad%d" % count[0]), ("s", "lap%d" % count[0]))
+    hk = {"wf.gradient_laplacian": h_gl, "configs.electron": lambda se_, a, kw_, e_: Opaque("cur"),
+          "np.abs": lambda se_, a, kw_, e_: se_.ev(a[0], e_), "np.sum": lambda se_, a, kw_, e_: ("vsum", se_.ev(a[0], e_))}
+    se = SymExec(hk, resolver=class_resolver(kpath, None))
+    env = {"configs": Opaque("configs"), "wf": Opaque("wf"), "nconf": Opaque("nconf"), "nelec": Opaque("nelec"), loop.target.id: Opaque("e")}
+    for st in fn.body[:k]:
+        try:
+            trial = dict(env)
+            se.stmt(st, trial)
+            env = trial
+        except (TranslationError, KeyError, AttributeError, TypeError):
+            pass
+    se.run(loop.body, env)
+    se.run(loop.body, env)
+    se.run(fn.body[k + 1:], env)
+    ret = env.get("__return__")
+    if not (isinstance(ret, tuple) and len(ret) == 2 and not isinstance(ret[0], str)) or count[0] != 2:
+        raise TranslationError("energy.kinetic: unexpected structure (return value / Laplacian calls)")
+    emit("kinetic_two_electrons", ret[0])
     header = ("(* GENERATED by /verif/translator/gen_func3d.py from /repo's pyqmc/wf/func3d.py on every run — do not edit.\n"
               "   Radial parts: value(r), and the factor G(r) with gradient = rvec * G(r). *)\n"
               "From Coq Require Import Reals.\nOpen Scope R_scope.\n\n")
